@@ -43,15 +43,21 @@ Small(S, n) == {T \in SUBSET S : Cardinality(T) <= n}
 Idx(T) == IF T = {} THEN 0 ELSE LET f[U \in SUBSET T] == IF U = {} THEN 0 ELSE LET x == CHOOSE y \in U : TRUE IN x[1] + f[U \ {x}] IN f[T]
 Keep(a, b) == DENSITY = 1 \/ (a * 7 + b * 13) % DENSITY = 0
 
-Config(t, ws, bs, needBK) ==
+Config(t, ws, bs, full) ==
     \A vk \in {Pawn, Knight, Rook, Queen} :
       \A A \in {T \in Small(ws, 3) : T # {} /\ Idx(T) % NSHARDS = SHARD} :
-        \A D \in {T \in Small(bs, 3) : Keep(Idx(A), Idx(T) + vk)} :
+        \A D \in {T \in Small(bs, 3) : full \/ Keep(Idx(A), Idx(T) + vk)} :
           LET hasBK == \E x \in D : x[2] = Bl(King)
               kings == {<<7, W(King)>>} \cup (IF hasBK THEN {} ELSE {<<48, Bl(King)>>})
           IN  Emit(A \cup D \cup {<<t, Bl(vk)>>} \cup kings)
 
-Run == Config(27, WhiteD4, BlackD4, TRUE) /\ Config(59, WhiteD8, BlackD8, TRUE)
+\* like pieces on the target's own rank and file on both sides of it, each possibly with an x-ray piece behind:
+\* small, never thinned (ties among equally valued attackers of one kind are decided by square order)
+WhiteRank == {<<18, W(Pawn)>>, <<26, W(Rook)>>, <<29, W(Rook)>>, <<25, W(Queen)>>, <<30, W(Rook)>>, <<11, W(Rook)>>, <<43, W(Rook)>>}
+BlackRank == {<<36, Bl(Pawn)>>, <<26, Bl(Rook)>>, <<29, Bl(Rook)>>, <<25, Bl(Rook)>>, <<30, Bl(Queen)>>, <<19, Bl(Rook)>>, <<35, Bl(Rook)>>}
+
+Run == /\ Config(27, WhiteD4, BlackD4, FALSE) /\ Config(59, WhiteD8, BlackD8, FALSE)
+       /\ Config(27, WhiteRank, BlackRank, TRUE)
 ASSUME Run
 VARIABLE x
 Init == x = 0
